@@ -26,6 +26,12 @@ import (
 // ---------------------------------------------------------------------------------------------------------
 
 // ---- multihash.Sum -------------------------------------------------------------------------------------
+// zzIntern numbers the distinct concrete hash inputs seen on a path.
+var zzIntern []string
+
+// Concrete input: an interned digest (01 | index), i.e. one particular collision-free deterministic function,
+// so that fully concrete DAG surgery costs no solver work. Symbolic input: uninterpreted collision-free
+// function whose digests start with FE (never equal to an interned one).
 func zzMhSum(data []byte, code uint64, length int) (mh.Multihash, error) {
 	if code == mh.IDENTITY {
 		return mh.Encode(data, mh.IDENTITY)
@@ -33,11 +39,30 @@ func zzMhSum(data []byte, code uint64, length int) (mh.Multihash, error) {
 	if length < 0 {
 		length = 32
 	}
+	if verifrt.IsConcrete(data) {
+		key := string(data) + string(rune(code))
+		idx := -1
+		for i, k := range zzIntern {
+			if k == key {
+				idx = i
+			}
+		}
+		if idx < 0 {
+			idx = len(zzIntern)
+			zzIntern = append(zzIntern, key)
+		}
+		d := make([]byte, length)
+		d[0] = 0x01
+		binary.BigEndian.PutUint32(d[1:], uint32(idx))
+		return mh.Encode(d, code)
+	}
 	algo := "crypto:mh-sha2-256"
 	if code != mh.SHA2_256 {
 		algo = "crypto:mh-other"
 	}
-	return mh.Encode(verifrt.HashUF(algo, data, length), code)
+	d := verifrt.HashUF(algo, data, length)
+	verifrt.Assume(d[0] == 0xFE)
+	return mh.Encode(d, code)
 }
 
 // zzGetHasher stands in for multihash/core.GetVariableHasher (the registry is filled from crypto/* constructors
@@ -355,11 +380,39 @@ func zzContent(dm *DagModifier, ds *zzDag) ([]byte, error) {
 	return zzReadAll(ds, nd)
 }
 
+// zzPick chooses an operation argument: from the full list, or from a small list of representative values
+// when the tier parameter ARGS is 0.
+func zzPick(name string, full, small []int) int {
+	l := full
+	if verifrt.Param("ARGS", 1) == 0 {
+		l = small
+	}
+	return l[verifrt.NondetRange(name, 0, len(l)-1)]
+}
+
+func zzSpan(lo, hi int) []int {
+	var r []int
+	for i := lo; i <= hi; i++ {
+		r = append(r, i)
+	}
+	return r
+}
+
 var zzOpNames = []string{"Write", "WriteAt", "Seek", "Read", "Truncate", "Size", "Sync", "GetNode"}
 
 // HarnessC10Ops: K operations on an initial file of N0 bytes, compared step by step with the model; the DAG
 // returned by GetNode at the end reads back as the model's content.
-func HarnessC10Ops() {
+func HarnessC10Ops() { zzOps() }
+
+// HarnessC10OpsDeep: the same with longer sequences over representative arguments (tier parameters differ).
+func HarnessC10OpsDeep() { zzOps() }
+
+// HarnessC10OpsSym: the same with symbolic file and write bytes (hash of symbolic input = uninterpreted function).
+func HarnessC10OpsSym() { zzOps() }
+
+func zzOps() {
+	zzIntern = nil
+	zzK.on = false
 	K := verifrt.Param("K", 2)
 	chunk := int64(verifrt.Param("CHUNK", 2))
 	width := verifrt.Param("WIDTH", 2)
@@ -382,8 +435,8 @@ func HarnessC10Ops() {
 			f.writeAt(b, f.pos)
 			f.pos += len(b)
 		case "WriteAt":
-			b := zzOpBytes(fillMode, verifrt.NondetRange("n", 1, 2), step)
-			off := verifrt.NondetRange("off", 0, len(f.data)+2)
+			b := zzOpBytes(fillMode, zzPick("n", []int{1, 2}, []int{1}), step)
+			off := zzPick("off", zzSpan(0, len(f.data)+2), []int{0, max(len(f.data)-1, 0), len(f.data) + 1})
 			n, err := dm.WriteAt(b, int64(off))
 			verifrt.Assert("C10.ops-writeat-return", err == nil && n == len(b))
 			f.writeAt(b, off)
@@ -392,8 +445,8 @@ func HarnessC10Ops() {
 			verifrt.Assert("C10.ops-writeat-offset-after", after == f.pos || after == off+len(b))
 			f.pos = after
 		case "Seek":
-			whence := verifrt.NondetRange("whence", 0, 2)
-			target := verifrt.NondetRange("target", -1, len(f.data)+2)
+			whence := zzPick("whence", []int{0, 1, 2}, []int{0, 2})
+			target := zzPick("target", zzSpan(-1, len(f.data)+2), []int{1, len(f.data) + 1})
 			base := 0
 			switch whence {
 			case io.SeekCurrent:
@@ -410,7 +463,7 @@ func HarnessC10Ops() {
 				f.extend(target) // seeking past the end extends the file with zeros at once (accepted reading)
 			}
 		case "Read":
-			buf := make([]byte, verifrt.NondetRange("n", 1, 3))
+			buf := make([]byte, zzPick("n", []int{1, 2, 3}, []int{1, 3}))
 			n, err := dm.Read(buf)
 			want := 0
 			if f.pos < len(f.data) {
@@ -427,7 +480,7 @@ func HarnessC10Ops() {
 				f.pos += n
 			}
 		case "Truncate":
-			sz := verifrt.NondetRange("size", 0, len(f.data)+2)
+			sz := zzPick("size", zzSpan(0, len(f.data)+2), []int{0, 1, len(f.data) + 1})
 			err := dm.Truncate(int64(sz))
 			verifrt.Assert("C10.ops-truncate-ok", err == nil)
 			if sz <= len(f.data) {
